@@ -111,8 +111,9 @@ fn main() {
         "C05" => {
             let mut groups = Vec::new();
             for kind in FORMATS {
-                let subs = subjects::subjects(kind, &lits_for(tier));
-                let inp = gen::inputs(kind, tier);
+                // extreme counts only bite for the widest literal type: always include usize here
+                let subs = subjects::subjects(kind, &tier.pick(vec!["u32", "u8", "usize"], subjects::LITS.to_vec()));
+                let inp = gen::inputs_seq(kind, tier, tier.pick(3, 4));
                 sample_docs(&mut report, kind, &inp.sequences);
                 let mut docs = inp.all();
                 docs.extend(gen::header_docs(kind));
@@ -154,7 +155,7 @@ fn main() {
             "every well-formed corpus document x streaming subject, delivered by a source that hands out at most the rest of the current line per read (choice: any shorter amount; deviation bounded) x chunk sizes; at the moment each item is returned the source must not have been asked beyond the line that completes the item (completing line = line containing the end of the shortest prefix on which the parser, given end of input, returns the same item)".into()
         }
         "C03" => {
-            c03::run(tier, &mut report, &|format| gen::inputs(format, tier).all());
+            c03::run(tier, &mut report, &|format| gen::inputs_seq(format, tier, tier.pick(3, 4)).all());
             c03::RULE.into()
         }
         "C12" => {
@@ -162,7 +163,7 @@ fn main() {
             c12::RULE.into()
         }
         "C06" => {
-            c06::run(tier, &mut report, &|format| gen::inputs(format, tier).all());
+            c06::run(tier, &mut report, &|format| gen::inputs_seq(format, tier, tier.pick(3, 4)).all());
             c06::RULE.into()
         }
         other => {
